@@ -5,6 +5,7 @@ import DuckModel.Expansion
 import DuckModel.Spec.Template
 import DuckModel.Lemmas.ExpansionLemmas
 import DuckModel.Props.C02Text
+import DuckModel.Props.C02Translated
 
 namespace Duck
 open Duck.Spec
